@@ -285,7 +285,7 @@ func c02r4(r *R) {
 		// appended id = first two bytes of this extension's serialisation
 		els := variadicElems(callOf(eaps[0]).Args[1])
 		if o4.Check(len(els) == 1, "append of %d elements", len(els)) {
-			e := c.Expr(els[0])
+			e := c.ExprAt(els[0], eaps[0].Block())
 			buf := "make([]byte,(github.com/refraction-networking/utls.TLSExtension).Len(" + extI + "))"
 			want := "((" + buf + "[0] << 8) | " + buf + "[1])"
 			o4.Check(e == want, "extension id appended is %s, want buf[0]<<8|buf[1] of this extension's Read output", e)
